@@ -161,7 +161,7 @@ def gen_poly(rng, n, tier):
         else:
             xs = [p[0] for p in pts]; ys = [p[1] for p in pts]
             q = [rng.uniform(min(xs) - 30 * sc, max(xs) + 30 * sc), rng.uniform(min(ys) - 30 * sc, max(ys) + 30 * sc)]
-        out.append({'pts': pts, 'q': q})
+        out.append({'pts': pts, 'q': q, 'edited': rng.random() < 0.3})
     return out
 
 
@@ -176,7 +176,14 @@ def run_poly(case):
         d, px, py, i = proj_polyligne(X, Y, case['q'][0], case['q'][1])
     except UnboundLocalError:
         return {'none': True}
-    tr = Track([Obs(ENUCoords(x, y, 0), ObsTime.readUnixTime(k)) for k, (x, y) in enumerate(case['pts'])])
+    if case.get('edited'):
+        # the same track object is first used with another geometry, then edited in place (same number of fixes) into the geometry of the case
+        tr = Track([Obs(ENUCoords(x + 3.0, 2.0 * y - 1.0, 0), ObsTime.readUnixTime(k)) for k, (x, y) in enumerate(case['pts'])])
+        mp.mapOnTrack(ENUCoords(case['q'][0], case['q'][1], 0), tr)
+        for k, (x, y) in enumerate(case['pts']):
+            tr.getObs(k).position.setX(x); tr.getObs(k).position.setY(y)
+    else:
+        tr = Track([Obs(ENUCoords(x, y, 0), ObsTime.readUnixTime(k)) for k, (x, y) in enumerate(case['pts'])])
     c, d2, i2 = mp.mapOnTrack(ENUCoords(case['q'][0], case['q'][1], 0), tr)
     return {'d': float(d), 'px': float(px), 'py': float(py), 'i': int(i), 'map': [float(c.getX()), float(c.getY()), float(d2), int(i2)]}
 
@@ -228,14 +235,14 @@ def shrink_poly(case):
     pts = case['pts']
     if len(pts) > 2:
         for i in range(len(pts)):
-            yield {'pts': pts[:i] + pts[i + 1:], 'q': case['q']}
+            yield {'pts': pts[:i] + pts[i + 1:], 'q': case['q'], 'edited': case.get('edited', False)}
 
 
 POLY_TYPE = 'list (float * float) * float * float * option (float * float * float * nat)'
 S_POLY = Stream(
     name='polyline', budget={'quick': 1200, 'thorough': 30000},
     rule=('polylines of 2..8 vertices with oblique, horizontal and zero-length segments (no vertical ones), integer / decimal / quarter-integer coordinates; queries beside, on the polyline, '
-          'at vertices; observed: the four return values of proj_polyligne (UnboundLocalError = no result) and mapOnTrack(coord, track); non-trivial = at least two segments of positive length'),
+          'at vertices; observed: the four return values of proj_polyligne (UnboundLocalError = no result) and mapOnTrack(coord, track), in 30 % of the cases on a track object that was projected on with another geometry and then edited in place; non-trivial = at least two segments of positive length'),
     imports=IMPORTS, case_type=POLY_TYPE,
     check_def=FEQ + '''Definition eps : float := (0x1.cd2b297d889bcp-54)%%float.   (* 1e-16 *)
 Definition ok (c : %s) : bool :=
